@@ -15,7 +15,6 @@ use md5::Digest;
 #[derive(Clone)]
 enum Call {
     Encode(Cfg, Pcm, String),
-    #[cfg(feature = "decode")]
     Parse(Cfg, Pcm),
     Search(Vec<i32>, usize, usize),
     FixedErrors(Vec<i32>),
@@ -44,20 +43,27 @@ fn run(c: &Call) -> String {
             Ok(s) => digest(&stream_bytes(&s)),
             Err(e) => format!("err:{e}"),
         },
-        #[cfg(feature = "decode")]
         Call::Parse(cfg, pcm) => match encode(&cfg, &pcm, "st", "mem") {
             Ok(s) => {
                 let bytes = stream_bytes(&s);
-                match flacenc::component::parser::stream::<nom::error::Error<&[u8]>>(&bytes) {
-                    Ok((_, parsed)) => {
-                        use flacenc::component::Decode;
-                        let mut audio = vec![];
-                        for i in 0..parsed.frame_count() {
-                            audio.extend(parsed.frame(i).unwrap().decode());
+                #[cfg(feature = "decode")]
+                {
+                    match flacenc::component::parser::stream::<nom::error::Error<&[u8]>>(&bytes) {
+                        Ok((_, parsed)) => {
+                            use flacenc::component::Decode;
+                            let mut audio = vec![];
+                            for i in 0..parsed.frame_count() {
+                                audio.extend(parsed.frame(i).unwrap().decode());
+                            }
+                            format!("{}{}", digest(&stream_bytes(&parsed)), digest(&ints_bytes(&audio)))
                         }
-                        format!("{}{}", digest(&stream_bytes(&parsed)), digest(&ints_bytes(&audio)))
+                        Err(_) => "parse_error".to_string(),
                     }
-                    Err(_) => "parse_error".to_string(),
+                }
+                #[cfg(not(feature = "decode"))]
+                {
+                    // builds without the parser: the call is an encode (keeps histories identical across builds)
+                    format!("noparser:{}", digest(&bytes))
                 }
             }
             Err(e) => format!("err:{e}"),
@@ -107,7 +113,6 @@ fn run(c: &Call) -> String {
 fn describe(c: &Call) -> String {
     match c {
         Call::Encode(cfg, pcm, mode) => format!("enc:{mode}:bs{}:c{}:b{}:n{}:a{}:{}", cfg.block_size, pcm.channels, pcm.bps, pcm.len(), if cfg.window_rect { 0 } else { cfg.alpha_bits }, pcm.family),
-        #[cfg(feature = "decode")]
         Call::Parse(cfg, pcm) => format!("parse:bs{}:c{}:b{}:n{}", cfg.block_size, pcm.channels, pcm.bps, pcm.len()),
         Call::Search(s, w, m) => format!("search:n{}:w{w}:m{m}", s.len()),
         Call::FixedErrors(s) => format!("fixederr:n{}", s.len()),
@@ -153,7 +158,6 @@ fn random_call(rng: &mut Rng) -> Call {
         }
         13 => Call::BadHeaderWrite(*rng.pick(&[1u64 << 36, (1u64 << 36) + 5, u64::MAX, (1u64 << 36) - 1])),
         0..=4 => Call::Encode(cfg, gen::pcm(rng, fam, ch, bps, 44100, len), (*rng.pick(&["st", "st", "frames", "mt:2", "mt:3"])).to_string()),
-        #[cfg(feature = "decode")]
         5 => Call::Parse(cfg, gen::pcm(rng, fam, ch, bps, 44100, len.min(600))),
         6 | 7 => {
             let n = *rng.pick(&[64usize, 128, 192, 256, 1024, 4096, 96, 320]);
@@ -254,10 +258,11 @@ pub fn generate(seed: u64, cases: usize, out: &mut dyn FnMut(String)) {
             Some(k) => format!("fail:call_{k}_{}_differs_from_a_fresh_thread", descs[k]),
         };
         out(format!(
-            "history id={}{i} cls=history|{} calls={} same={same} o_c10={o}",
+            "history id={}{i} cls=history|{} calls={} same={same} res={} o_c10={o}",
             if i == 0 { "corpus-f7-" } else { "h" },
             descs.iter().map(|d| d.split(':').next().unwrap_or("")).collect::<Vec<_>>().join("+"),
-            descs.join(";")
+            descs.join(";"),
+            on_one_thread.join(";")
         ));
     }
     // window fingerprints (kernel): distinct windows must have distinct fingerprints
